@@ -23,14 +23,18 @@ type ExploreStats struct {
 }
 
 // Explore runs `run` for every schedule with at most bound preemptions (bound < 0: all schedules).
-// visit is called after every execution; returning false stops the exploration. mine, if non-nil, is
-// consulted once per first-level subtree (alternatives branching off the canonical execution) so that the
-// subtrees can be sharded over worker processes; the canonical execution itself is run by every worker
-// (visit can recognise it by len(prefix) == 0).
-func Explore(bound int, run func(prefix []int, expect []uint32) *Exec, visit func(prefix []int, ex *Exec) bool, mine func() bool) ExploreStats {
+// visit is called after every execution; returning false stops the exploration.
+//
+// Sharding over worker processes: mine, if non-nil, is consulted once for every subtree that hangs off a
+// preemption-free execution through its FIRST preemption. The preemption-free executions themselves (the
+// canonical one and those reached from it through free choices only: a handful, one per order in which
+// the threads can be run to completion or to a block) are executed by every worker and flagged
+// shared=true to visit. Subtrees under a free choice are not sharding units because each of them is as
+// large as the whole tree.
+func Explore(bound int, run func(prefix []int, expect []uint32) *Exec, visit func(prefix []int, ex *Exec, shared bool) bool, mine func() bool) ExploreStats {
 	var st ExploreStats
-	var rec func(prefix []int, expect []uint32, cost int, top bool)
-	rec = func(prefix []int, expect []uint32, cost int, top bool) {
+	var rec func(prefix []int, expect []uint32, cost int)
+	rec = func(prefix []int, expect []uint32, cost int) {
 		if st.Stopped {
 			return
 		}
@@ -44,7 +48,7 @@ func Explore(bound int, run func(prefix []int, expect []uint32) *Exec, visit fun
 		if len(ex.Points) > st.MaxPoints {
 			st.MaxPoints = len(ex.Points)
 		}
-		if !visit(prefix, ex) {
+		if !visit(prefix, ex, cost == 0 && mine != nil) {
 			st.Stopped = true
 			return
 		}
@@ -62,19 +66,19 @@ func Explore(bound int, run func(prefix []int, expect []uint32) *Exec, visit fun
 				continue
 			}
 			for alt := 1; alt < ex.Points[i].N; alt++ {
-				if top && mine != nil && !mine() {
+				if cost == 0 && c > 0 && mine != nil && !mine() {
 					continue
 				}
 				np := make([]int, i+1)
 				copy(np, picks[:i])
 				np[i] = alt
-				rec(np, sigs[:i+1], c, false)
+				rec(np, sigs[:i+1], c)
 				if st.Stopped {
 					return
 				}
 			}
 		}
 	}
-	rec(nil, nil, 0, true)
+	rec(nil, nil, 0)
 	return st
 }
